@@ -17,6 +17,18 @@ def unhex(s):
     return float(s) if s in ("nan", "inf", "-inf") else float.fromhex(s)
 
 
+def model_flag(name, default=True):
+    """the faithful-to-the-code switches of coq/C18/Model.v (single place to flip when a fix lands);
+    here they only steer the generator"""
+    try:
+        import re
+        txt = open(os.path.join(common.COQ, "C18", "Model.v")).read()
+        m = re.search(r"Definition %s : bool := (true|false)\." % name, txt)
+        return m.group(1) == "true" if m else default
+    except OSError:
+        return default
+
+
 def natf(mean, sigma):
     """exact natural parameters of NormalMessage(mean, sigma) for float inputs"""
     mu, sg = Fr(mean), Fr(sigma)
@@ -337,7 +349,7 @@ def gen_decl(rng, thorough):
         elif rng.random() < 0.5:
             dj = {"t": "dynamic", "d0": hx(rng.choice([1.0, 0.5, 0.25]))}
     max_steps = rng.choice([0, 1, 2, 2, 3, 3, 4 if thorough else 3])
-    st0 = sim_init(c, occ_variant=True)
+    st0 = sim_init(c, occ_variant=model_flag("code_counts_occurrences"))
     sim = Sim(st0)
     scripts = [[] for _ in range(ng)]
     stop = None
@@ -515,7 +527,9 @@ def check_update(step, i, cav, own, new, msg, glob_before, glob_after, success, 
                 first = first or "%s: improper projection of variable %d did not keep the previous message" % (where, v)
             continue
         if v not in msg or not near(msg[v], exp, mag):
-            bad.append(tag)
+            # the known per-variable-delta-one defect leaves the old message in place; anything else is untagged
+            kept = v in msg and v in own and near(msg[v], own[v], mag) and not success
+            bad.append(tag if kept else ("wrong-message",))
             first = first or "%s: new message of variable %d is not new/cavity (delta %s)" % (where, v, d)
             continue
         if fresh and v in own:
@@ -600,23 +614,6 @@ def post_identities(state, i):
     return cav, own, model
 
 
-def dyn_one_vars(step, state_keys):
-    """variables whose DynamicUpdater delta is exactly 1 (case-derived)"""
-    if step["delta"]["t"] != "dynamic":
-        return set()
-    cnt = {}
-    for m in state_keys:
-        for v in m:
-            cnt[v] = cnt.get(v, 0) + 1
-    mn = min(cnt.values())
-    return {v for v, n in cnt.items() if unhex(step["delta"]["d0"]) * mn / n == 1.0}
-
-
-def visits_of(c, r, nf):
-    """chronological visits of a run reconstructed from the observed log"""
-    return [e["f"] for e in r["log"]]
-
-
 def oracle_run(c, r, run, nf, state0, parallel, where0):
     """EPOptimiser.run: schedule, locality, exactness, history accessors"""
     fails = []
@@ -646,7 +643,6 @@ def oracle_run(c, r, run, nf, state0, parallel, where0):
     prev_bits = r.get("bits0")
     base = state
     counts = {}
-    dyn_bad = []
     for k, e in enumerate(log):
         i = e["f"]
         where = "%s visit %d (factor %d)" % (where0, k, i)
@@ -707,8 +703,10 @@ def oracle_run(c, r, run, nf, state0, parallel, where0):
                 fails.append(("%s: %s of factor %d is entry %r, the most recent is %r" % (where0, name, i, a[name], val), []))
         exp_res = [sts[succ[-1]][2]] if succ else None
         if a["latest_result"] != exp_res:
+            first_res = [sts[succ[0]][2]] if succ else None
             fails.append(("%s: latest_result of factor %d is %r, the most recent successful result is %r"
-                          % (where0, i, a["latest_result"], exp_res), [("latest_result", i)]))
+                          % (where0, i, a["latest_result"], exp_res),
+                          [("latest_result", i)] if a["latest_result"] == first_res else [("wrong-result",)]))
     return fails
 
 
@@ -728,7 +726,7 @@ def run_order(c, r):
 def margins_ok(c, order):
     """re-simulate a declarative run in the given order: is every projection decided with a margin?"""
     run = c["run"]
-    sim = Sim(sim_init(c, occ_variant=True))
+    sim = Sim(sim_init(c, occ_variant=model_flag("code_counts_occurrences")))
     counts = {}
     for _ in range(run["max_steps"]):
         for i in order:
@@ -777,10 +775,18 @@ def oracle_decl(c, r):
         if msg_:
             fails.append((msg_, []))
         for v in m:
+            owners = sum(1 for f in gf if v in f)
+            occs = sum(f.count(v) for f in fs) + (1 if include else 0)
             if v not in cav:
-                fails.append(("initial cavity of factor %d has no distribution for variable %d (prior ignored)" % (i, v), [("init", v)]))
+                # known: no prior factors and a single owner -> nothing to multiply
+                fails.append(("initial cavity of factor %d has no distribution for variable %d (prior ignored)" % (i, v),
+                              [("init-missing", v)] if owners == 1 else [("wrong-cavity",)]))
             elif not near(cav[v], pri[v], mag):
-                fails.append(("initial cavity of factor %d for variable %d is not the user's prior" % (i, v), [("init", v)]))
+                # known: exponent 1/(occurrences-1) on each of the other (owners-1) messages
+                k = (owners - 1) / (occs - 1) if occs > 1 else float(owners - 1)
+                defect = (k * pri[v][0], k * pri[v][1])
+                fails.append(("initial cavity of factor %d for variable %d is not the user's prior" % (i, v),
+                              [("init-power", v)] if near(cav[v], defect, mag) else [("wrong-cavity",)]))
     run = c.get("run")
     if run:
         run = dict(run, order=run_order(c, r))
@@ -793,6 +799,8 @@ def oracle_decl(c, r):
         acc = r["access"]
         latest = [a["statuses"][[k for k, s in enumerate(a["statuses"]) if s[0]][-1]][2]
                   if any(s[0] for s in a["statuses"]) else None for a in acc]
+        earliest = [a["statuses"][[k for k, s in enumerate(a["statuses"]) if s[0]][0]][2]
+                    if any(s[0] for s in a["statuses"]) else None for a in acc]
         has = [any(s[0] for s in a["statuses"]) for a in acc]
         fs_all, groups, singles = expand(c)
         if c["entry"] == "single":
@@ -801,8 +809,10 @@ def oracle_decl(c, r):
         for gi, (grp, got) in enumerate(zip(exp_groups, r["groups"])):
             exp = [latest[i] for i in grp] if all(has[i] for i in grp) else None
             if got != exp:
+                first_exp = [earliest[i] for i in grp] if all(has[i] for i in grp) else None
                 fails.append(("EPResult accessor %d over factors %s reports %r, the most recent results are %r"
-                              % (gi, grp, got, exp), [("latest_result", i) for i in grp]))
+                              % (gi, grp, got, exp),
+                              [("latest_result", i) for i in grp] if got == first_exp else [("wrong-result",)]))
         if len(r["groups"]) != len(exp_groups):
             fails.append(("EPResult accessor count", []))
         if "posterior" in r:
@@ -831,11 +841,13 @@ def classify(c, tagged):
                 owners[v] = owners.get(v, 0) + 1
         single = {v for v, n in owners.items() if n == 1} if not include else set()
     for t in tagged:
-        if t[0] == "init":
-            v = t[1]
-            if v in dup:
+        if t[0] == "init-power":
+            if t[1] in dup:
                 labels.add("prior-twice-in-one-factor")
-            elif v in single:
+            else:
+                return []
+        elif t[0] == "init-missing":
+            if t[1] in single:
                 labels.add("no-prior-factors-single-owner")
             else:
                 return []
